@@ -473,10 +473,15 @@ func (w *world) settle() {
 	}
 }
 
-// ttlOf is min(NS TTL, DS TTL) of a referral as sent.
-func ttlOf(r *referral) time.Duration {
+// ttlOf is min(NS TTL, DS TTL) of a referral as sent. nsOnly leaves the DS
+// out: a resolution tree that runs with CD=1 (a CD=1 client, or sdns's own
+// NS-address / DS look-ups below an insecure cut) does not retain the
+// referral's DS at all (validateDelegation, CD branch), so the leases of the
+// CD=1 partition of the delegation cache — which only such trees read — are
+// bounded by the NS TTL (and the ancestors of the same partition) alone.
+func ttlOf(r *referral, nsOnly bool) time.Duration {
 	ttl := r.NSTTL
-	if r.HasDS && r.DSTTL < ttl {
+	if !nsOnly && r.HasDS && r.DSTTL < ttl {
 		ttl = r.DSTTL
 	}
 	return time.Duration(ttl) * time.Second
@@ -495,9 +500,13 @@ type limits struct {
 	grant []time.Duration
 }
 
-// bounds computes the limits. oldOnly ignores referrals of the re-pointed
+// bounds computes the limits for the CD=0 partition (what clients that
+// validate are served from). oldOnly ignores referrals of the re-pointed
 // generation.
-func (w *world) bounds(oldOnly bool) limits {
+func (w *world) bounds(oldOnly bool) limits { return w.boundsFor(oldOnly, false) }
+
+// boundsFor with cd1=true gives the limits of the CD=1 partition (see ttlOf).
+func (w *world) boundsFor(oldOnly, cd1 bool) limits {
 	w.mu.Lock()
 	defer w.mu.Unlock()
 	n := len(w.apex)
@@ -515,8 +524,8 @@ func (w *world) bounds(oldOnly bool) limits {
 			q = time.Since(w.t0) + w.sk
 			qt = q
 		}
-		g := min(qt+ttlOf(r), l.grant[r.Level-1])
-		b := min(qt+ttlOf(r), q+ceiling, l.lease[r.Level-1])
+		g := min(qt+ttlOf(r, cd1), l.grant[r.Level-1])
+		b := min(qt+ttlOf(r, cd1), q+ceiling, l.lease[r.Level-1])
 		if g > l.grant[r.Level] {
 			l.grant[r.Level] = g
 		}
